@@ -44,6 +44,10 @@ def find_fn(name):
     for k in ("core", "nn", "special"):
         if hasattr(m[k], name):
             return getattr(m[k], name)
+    import importlib
+    linalg = importlib.import_module("onnxscript.function_libs.torch_lib.ops.linalg")
+    if hasattr(linalg, name):
+        return getattr(linalg, name)
     raise AttributeError(name)
 
 
